@@ -221,7 +221,10 @@ func Assign(left, right value.Value) error {
 		switch right.Type() {
 		case value.BackendType: // BACKEND = BACKEND
 			rv := value.Unwrap[*value.Backend](right)
+			// The backend may wrap a director, which does not have the backend declaration
 			lv.Value = rv.Value
+			lv.Director = rv.Director
+			lv.Healthy = rv.Healthy
 		default:
 			return errors.WithStack(fmt.Errorf("invalid assignment for BACKEND type, got %s", right.Type()))
 		}
